@@ -10,6 +10,7 @@ from ..tables import (ElementTable, STANDARD_SYMBOLS, STANDARD_GROUP, STANDARD_P
                       pyx_source, pyx_list_assign, pyx_decl_len, pyx_import_names)
 from ..bits import matcher_layout, charge_bounds
 from ..r_hygiene import rule_hygiene as _rule_hygiene
+from ..r_query import rule_isotope_setter as _rule_iso_setter
 
 LEVEL = 'proof'
 PACK = 'chython/containers/_pack_v2.pyx'
@@ -284,6 +285,7 @@ def run(ck, repo):
     ck.floor('C18.3-representable', 400)
     ck.floor('C18.4-duplicates', 118)
     _rule_hygiene(ck, repo, 'C18.H-dataflow-hygiene', 'C18')
+    _rule_iso_setter(ck, repo, 'C18.3-isotope-setter')
 
 
 def first_diff(a, b):
